@@ -167,7 +167,7 @@ func (adapter *Adapter) UpdateInputs(deps []controller.Input) error {
 				return fmt.Errorf("error deleting controller dependency: %w", err)
 			}
 
-			adapter.deleteWatchFilter(dbDeps[j].Namespace, dbDeps[j].Type)
+			adapter.deleteWatchFilter(dbDeps[j])
 
 			j++
 		}
@@ -177,9 +177,13 @@ func (adapter *Adapter) UpdateInputs(deps []controller.Input) error {
 				return fmt.Errorf("error adding controller dependency: %w", err)
 			}
 
+			var filter reduced.WatchFilter
+
 			if deps[i].Kind == controller.InputDestroyReady {
-				adapter.addWatchFilter(deps[i].Namespace, deps[i].Type, reduced.FilterDestroyReady)
+				filter = reduced.FilterDestroyReady
 			}
+
+			adapter.addWatchFilter(deps[i], filter)
 
 			if err := adapter.watchFunc(deps[i].Namespace, deps[i].Type); err != nil {
 				return fmt.Errorf("error watching resources: %w", err)
